@@ -1,3 +1,10 @@
-"""C02 -- the generated parser agrees with the model: bounded stand-in (the generator is a printer of python source,
-outside the reach of pyvc contracts; see DESIGN section 3/C02)."""
-from bounded.bC02 import run as bounded  # noqa: F401
+"""C02 -- the generated parser agrees with the model: the generated-code runtime twins are proved (contracts tagged C02);
+model == generated parser is a bounded stand-in (the generator is a printer of python source, outside the reach of pyvc
+contracts; see DESIGN section 3/C02).  A generated parser object is reused across parses while the model builds a fresh
+context per parse: the histories on one reused parser object (failed parses, parse-time settings) are part of the comparison."""
+
+
+def bounded(tier, seed, info):
+    from bounded.bC02 import run
+    from bounded.bHist import run_parser_histories
+    return run(tier, seed, info) + run_parser_histories('C02', tier, seed)
